@@ -51,7 +51,8 @@ LevelSig(ls, i) ==
   ELSE (IF ls[i].seq THEN "s" ELSE "m") \o Digit(ls[i].step) \o (IF ls[i].key = "rules" THEN "r" ELSE "k")
        \o (IF ls[i].sl THEN "l" ELSE "") \o (IF ls[i].sibB THEN "b" ELSE "") \o (IF ls[i].sibA THEN "a" ELSE "") \o (IF i < Len(ls) THEN "." ELSE "") \o LevelSig(ls, i + 1)
 WrapShape(lay) == lay.base \o ":" \o (IF lay.wrap.levels = <<>> THEN "-" ELSE LevelSig(lay.wrap.levels, 1))
-                  \o (IF lay.wrap.embed THEN ":embed" ELSE "") \o (IF lay.wrap.docB THEN ":docB" ELSE "") \o (IF lay.wrap.docA THEN ":docA" ELSE "")
+                  \o (IF lay.wrap.embed THEN ":embed" ELSE "") \o (IF lay.wrap.embed2 THEN "2" ELSE "") \o (IF lay.wrap.mix THEN ":mix" ELSE "")
+                  \o (IF lay.wrap.docE # "none" THEN ":" \o lay.wrap.docE ELSE "") \o (IF lay.wrap.docB THEN ":docB" ELSE "") \o (IF lay.wrap.docA THEN ":docA" ELSE "")
 HasSeq(lay) == \E i \in DOMAIN lay.wrap.levels : lay.wrap.levels[i].seq
 
 \* first difference between two rule sequences, for the report
@@ -72,7 +73,12 @@ Judge(rec, R) ==
   LET lay   == rec.lay
       S     == ProjFile(rec.strict)
       X     == ProjFile(rec.relaxed)
-      WW    == ProjFile(rec.wrapped)
+      W0    == ProjFile(rec.wrapped)
+      \* the extra list item of a mixed list (`- mx:` holding `- alert: SibM`) must be found, as a group of its own,
+      \* wherever relaxed mode reports it; the remaining rules are compared in order
+      mixK  == {k \in DOMAIN W0 : W0[k].name = "SibM"}
+      mixOK == IF lay.wrap.mix THEN Cardinality(mixK) = 1 /\ \A k \in mixK : W0[k].ng /\ W0[k].err = "" ELSE mixK = {}
+      WW    == SelectSeq(W0, LAMBDA r : r.name # "SibM")
       \* sibling keys of the wrapper that hold a rule list of their own contribute R.nB rules in front and R.nA behind,
       \* each a group of its own
       sized == Len(WW) >= R.nB + R.nA
@@ -99,9 +105,9 @@ Judge(rec, R) ==
           ELSE Emit("UNEXP", rec.id, [what |-> "not strict-valid: " \o rec.strict.err, shape |-> WrapShape(lay)])
      ELSE TRUE
   \* wrapped = displaced(unwrapped)
-  /\ IF rec.wrapped.err = "" /\ rec.wrapped.panic = "" /\ W = want /\ sibs THEN TRUE
+  /\ IF rec.wrapped.err = "" /\ rec.wrapped.panic = "" /\ W = want /\ sibs /\ mixOK THEN TRUE
      ELSE Emit("VIOL", rec.id, [kind |-> "wrap", diff |-> IF rec.wrapped.err # "" \/ rec.wrapped.panic # "" THEN "error"
-                                                        ELSE IF W = want THEN "siblings" ELSE Diff(want, W),
+                                                        ELSE IF W = want THEN (IF sibs THEN "mixed" ELSE "siblings") ELSE Diff(want, W),
                                 shape |-> WrapShape(lay), seq |-> HasSeq(lay)])
 
 TCase ==
